@@ -15,7 +15,9 @@ returned, messages included (string equality), grades within 1e-9.
 
 Property oracle (independent of model and recorder): the statement itself on the returned value -- key sets,
 types, ranges, ok/grade agreement (pinned ok excepted), one entry per input, entries sit at their inputs
-(fresh single-input graders), no debug-log text / sampled value in any message unless debug=True.
+(fresh single-input graders, unmatchable-sentinel inputs), no debug-log text / sampled value in any message unless
+debug=True -- also under ObjectWithSchema.register_defaults (harness/props/c01_defaults.py: 93 exhaustive scenarios of
+registration level x debug=True grader x construction order x kwargs/dict form, registrations cleared in a finally).
 """
 import copy
 import json
@@ -29,12 +31,15 @@ from harness import core
 from harness.core import qlit, zlit, boollit, listlit, optlit
 from harness.props import c01_gen as G
 from harness.props import c01_rec as R
+from harness.props import c01_defaults as D
 from translate import pipeline as tr_pipeline
 
 ID = 'C01'
 PROPS = 'Props/C01.v'
 TRANSLATORS = [('Gen/PipelineLits.v', tr_pipeline.generate)]
 MIRRORED = [('mitxgraders/baseclasses.py', 'AbstractGrader.__call__'),
+            ('mitxgraders/baseclasses.py', 'ObjectWithSchema.apply_registered_defaults'),
+            ('mitxgraders/baseclasses.py', 'ObjectWithSchema.register_defaults'),
             ('mitxgraders/baseclasses.py', 'AbstractGrader.apply_attempt_based_credit'),
             ('mitxgraders/baseclasses.py', 'AbstractGrader.grade_decimal_to_ok'),
             ('mitxgraders/baseclasses.py', 'AbstractGrader.format_messages'),
@@ -634,6 +639,42 @@ def evaluate_case(case, seed, res, stats):
         return None
 
 
+def _defaults_check_call(g, spec_like, x):
+    """one call inside the registered-defaults stream: None if it raised, else the C01 oracle's findings"""
+    import numpy as np
+    np.random.seed(12345)
+    st, out = core.guarded(g, None, copy.deepcopy(x))
+    if st != 'ret':
+        return None
+    r = Run()
+    r.out, r.samples, r.rec = out, [], None
+    r.debuglog = list(getattr(g, 'debuglog', []) or [])
+    return oracle({'spec': spec_like, 'input': x}, r)
+
+
+def defaults_witness(sc, kind, what, name, form):
+    return {'key': 'registered-defaults|%s|%s|%s|%s' % ('/'.join(sc), kind, name, form), 'kind': kind, 'what': what,
+            'scenario': list(sc), 'class': name, 'form': form,
+            'how': 'register_defaults(%r) on %s; build %s(debug=True); order=%s; then build/call the graders of the family '
+                   'without a debug key' % (D.harmless_default(sc[1]), sc[1], sc[2], sc[3])}
+
+
+def defaults_stream(res, stats):
+    """the debug clause under ObjectWithSchema.register_defaults (harness/props/c01_defaults.py), exhaustive scenarios"""
+    tot = {'scenarios': 0, 'built': 0, 'rejected': 0, 'calls': 0, 'returned': 0}
+    for sc in D.scenarios():
+        found, n = D.run_scenario(sc, _defaults_check_call)
+        tot['scenarios'] += 1
+        for k in n:
+            tot[k] += n[k]
+        res.oracle_evals += n['returned']
+        for kind, what, name, form in found:
+            res.witnesses.append(defaults_witness(sc, kind, what, name, form))
+        if n['returned']:
+            res.nontrivial.add(('registered-defaults',) + tuple(sc))
+    stats['registered_defaults_stream'] = tot
+
+
 def run(ctx):
     res = core.Result()
     rng = random.Random(7919 * ctx['seed'] + 101)
@@ -652,6 +693,7 @@ def run(ctx):
         counts = QUICK
     res.distribution_extra = {'scaled_comparer_results_recompute_ok': RECOMPUTE}
     cases = [dict(c, kind='corpus') for c in CORPUS] + grid_cases() + gen_cases(rng, counts)
+    defaults_stream(res, stats)
     terms, metas = [], []
     for i, case in enumerate(cases):
         seed = (ctx['seed'] * 1000003 + i * 7 + 1) % (2 ** 31)
@@ -683,6 +725,11 @@ def run(ctx):
 
 
 def replay(w):
+    if 'scenario' in w:
+        found, n = D.run_scenario(tuple(w['scenario']), _defaults_check_call)
+        hit = [f for f in found if f[0] == w['kind']]
+        return bool(hit), 'registered-defaults scenario %r: built %d, rejected %d, returned calls %d; oracle: %r' % (
+            w['scenario'], n['built'], n['rejected'], n['returned'], [h[1] for h in hit[:2]])
     case = {'spec': w['spec'], 'input': w['input'], 'attempt': w['attempt'], 'expect': w.get('expect'), 'kind': 'replay'}
     run = run_call(case['spec'], case['input'], case['attempt'], case['expect'], w.get('call_seed', 1))
     if run.build_error is not None:
